@@ -24,10 +24,10 @@ extern int mpt_path_last(MPT_STRUCT(path) *path)
 		errno = EINVAL; return -2;
 	}
 	if (path->flags & MPT_PATHFLAG(SepBinary)) {
-		if (pos < 2 || pos < (len = data[pos-2])) {
+		if (pos < 2 || (pos - 2) < (len = (uint8_t) data[path->off + pos - 2])) {
 			errno = EINVAL; return -2;
 		}
-		pos -= len;
+		pos -= len + 2;
 		
 		path->off += pos;
 		path->len  = (path->first = len) + 2;
